@@ -387,6 +387,94 @@ def rule_peer_shaped_sinks(S, res):
         res.ok("R1.i", "all-receives", "", "%d index/slice/unwrap sinks on message components: validated by the receive primitive or behind a fail-closed length test (%d)" % (n_sinks, n_guarded))
 
 
+def rule_peer_length_arith(S, res):
+    """R1.len: the length of a vector whose size the sender chooses (a container of the received type tree below the
+    level validated on receipt) is used as a slice bound / split position on another container, or as the minuend of
+    a subtraction (`row.len() - TAG_LEN`), without a dominating fail-closed length test of that vector: a longer /
+    shorter vector than the honest one panics (index out of range, `attempt to subtract with overflow`)."""
+    fg = S.fg
+    cl = mpc_closure(S)
+    n_len = 0
+    bad = 0
+    seen = set()
+    work = []
+    for s in S.recv_sites:
+        if s.bk not in cl:
+            continue
+        vtypes, T = validated_types(s)
+        work.append((S.comp_by_site[id(s)], vtypes, T, (s.label or ["?"])[0]))
+    # the rows of the garbled tables reach the evaluator through the gate stream (file_or_mem_buf), not through a
+    # receive result: the ciphertext handed to garble::decrypt is a vector whose length the garbler chooses
+    for dk, db in fg.bodies.items():
+        if db.owner == "polytune::mpc::garble::decrypt" and db.id == db.owner and db.argc >= 2:
+            seed = (dk, 2, None)
+            rr = fg.forward([seed], node_ok=lambda x: x[0] == dk, edge_ok=lambda e2: e2.kind in ("copy", "ref") or (e2.kind == "call" and secmod.struct_edge(e2)), local=True)
+            pty = norm_ty(db.locals[2]["ty"])
+            work.append((set(rr.keys()), set(), pty, "garbled row"))
+    for reach, vtypes, T, lab in work:
+        guards_cache = {}
+        for n in reach:
+            if n[0] == "F":
+                continue
+            bk = n[0]
+            b = fg.bodies[bk]
+            for e in fg.out.get(n, ()):
+                if e.kind not in ("call", "shape") or e.block is None or e.body != bk or not isinstance(e.info, dict) or e.info.get("arg") != 0:
+                    continue
+                names = (e.info or {}).get("names") or []
+                if not names or names[-1].rsplit("::", 1)[-1] != "len":
+                    continue
+                nty = concrete_node_ty(S, n)
+                if not is_container(nty) or nty in vtypes or T is None or nty not in T:
+                    continue
+                if (bk, e.block) in seen:
+                    continue
+                seen.add((bk, e.block))
+                n_len += 1
+                t = b.blocks[e.block]["t"]
+                rl = root_local(b, t["args"][0])
+                croots = {x[1] for x in fg.backward(fg.operand_nodes(bk, t["args"][0]), node_ok=lambda x: x[0] == bk, edge_ok=lambda e2: e2.kind in ("copy", "ref") or (e2.kind == "call" and secmod.struct_edge(e2)))}
+                ln = (bk, t["d"]["l"], None)
+                # a minimum with another length (`n.min(v.len())`) is a clamp, not a bound the peer controls
+                fwd = fg.forward([ln], node_ok=lambda x: x[0] == bk,
+                                 edge_ok=lambda e2: e2.kind in ("copy", "cast", "ref", "agg", "field2whole", "base2field") or (e2.kind == "bin" and e2.info in ("Add", "Sub", "Mul", "AddWithOverflow", "SubWithOverflow", "MulWithOverflow", "AddUnchecked", "SubUnchecked")))
+                locs = {x[1] for x in fwd}
+                if bk not in guards_cache:
+                    guards_cache[bk] = length_guards(S, bk, b)
+
+                def guarded(block):
+                    for (gl, good, exact, c) in guards_cache[bk]:
+                        if any(b.edge_dominates(s_, d_, block) for (s_, d_) in good):
+                            if gl == rl or (isinstance(gl, tuple) and gl[0] == "deep" and gl[1] in croots):
+                                return True
+                    return False
+                var = b.locals[rl]["name"] if rl is not None and b.locals[rl]["name"] else "?"
+                fn = b.owner.rsplit("::", 1)[-1]
+                for bi, blk in enumerate(b.blocks):
+                    tt = blk["t"]
+                    if tt["k"] == "assert" and tt["mk"] == "Overflow" and any(o["k"] != "const" and o["p"]["l"] in locs for o in tt["mops"][:1]) and "Sub" in str(tt.get("op", "")) + str(tt.get("msg", "")) + str(tt):
+                        if not guarded(bi):
+                            bad += 1
+                            res.bad("R1.len", "%s|%s.len()-|%s" % (fn, var, lab), "the length of `%s` (a vector of message %r whose size the sender chooses) is the minuend of a subtraction: a short vector panics with an arithmetic overflow instead of returning Err" % (var, lab), where(b, bi),
+                                    key="R1.len|%s|%s|sub|%s" % (fn, var, lab))
+                    if tt["k"] == "call":
+                        cn = callee_names(tt)
+                        tail = cn[-1].rsplit("::", 1)[-1] if cn else ""
+                        if tail in INDEX_TAILS and len(tt["args"]) >= 2 and tt["args"][1]["k"] != "const" and tt["args"][1]["p"]["l"] in locs:
+                            # the same vector indexed up to its own length is in range by construction
+                            r0 = {x[1] for x in fg.backward(fg.operand_nodes(bk, tt["args"][0]), node_ok=lambda x: x[0] == bk, edge_ok=lambda e2: e2.kind in ("copy", "ref") or (e2.kind == "call" and secmod.struct_edge(e2)))}
+                            arith = any(st["k"] == "assign" and st["p"]["l"] in locs and st["r"]["k"] == "bin" for blk2 in b.blocks for st in blk2["s"])
+                            if (r0 & croots) and not arith:
+                                continue
+                            if not guarded(bi):
+                                bad += 1
+                                res.bad("R1.len", "%s|%s.len()|%s" % (fn, var, lab), "the length of `%s` (a vector of message %r whose size the sender chooses) decides the range / position of `%s`: a vector of another length than the honest one panics instead of returning Err" % (var, lab, tail), where(b, bi),
+                                        key="R1.len|%s|%s|%s|%s" % (fn, var, tail, lab))
+    res.count("lengths_of_peer_sized_vectors", n_len)
+    if not bad:
+        res.ok("R1.len", "all-receives", "", "%d len() of peer-sized vectors: none bounds a slice of another container or is subtracted from without a fail-closed length test" % n_len)
+
+
 def rule_peer_scalar(S, res):
     """R1.ii: a received integer is never used as index, size or divisor."""
     fg = S.fg
